@@ -175,7 +175,7 @@ pub fn hang_exit(run: u64, sc: Option<&Scenario>) -> ! {
             step: 0,
             detail: "a call did not return: the run made no progress within the hang limit".into(),
             expected: vec!["every call returns".into()],
-            got: vec!["no progress for 60 s".into()],
+            got: vec!["no progress within the hang limit (300 s by default)".into()],
             oracle: "watchdog over the per-run heartbeat".into(),
         };
         let rf = ReplayFile { property: c.prop.clone(), class: v.class.clone(), seed: c.seed, run, minimised: false, original_ops: sc.ops.len(), scenario: sc.clone(), violation: v, replay_cmd: format!("/verif/check replay {}", path.display()) };
